@@ -77,6 +77,7 @@ func VerifHarness_C04() {
 		// the cloud's describe calls are throttled from now on: escalator cannot refresh what it
 		// knows about the group (whose limits have just changed) nor rebuild its provider
 		w.AS.DescribeDown = true
+		w.J.TypedErrors = true // throttled, rejected, or failing for no stated reason
 	}
 	desired := asg.Desired
 	s := w.snap(g)
